@@ -1,6 +1,7 @@
 /- Driver ops for C04: closed-form function gradients (`Model/Grad.lean`) on `Float`. -/
 import Xrfmv.Drv.Common
 import Xrfmv.Model.Grad
+import Xrfmv.Model.GradGen
 
 open Lean Xrfmv.Drv
 
@@ -88,7 +89,13 @@ def tensorJson (g : List (List (List Float))) : Json :=
 /-- `get_function_grads(x, z, coefs, mat)` from the closed forms: `(f, n_z, d)`. -/
 def opFgrad : Handler := fun j => do
   let b ← getBlock j
-  pure <| Json.mkObj [("grads", tensorJson (fgrad b.kind b.prm b.T b.x b.z b.coefs))]
+  let base := [("grads", tensorJson (fgrad b.kind b.prm b.T b.x b.z b.coefs))]
+  -- the two closed-form kernels also through the weight programs regenerated from their gradient routines
+  let gen := match b.kind with
+    | .l2 => [("grads_gen", tensorJson (GradGen.fgrad false b.prm b.T b.x b.z b.coefs))]
+    | .light => [("grads_gen", tensorJson (GradGen.fgrad true b.prm b.T b.x b.z b.coefs))]
+    | _ => []
+  pure <| Json.mkObj (base ++ gen)
 
 /-- Values `f_l(z_j)` of the (unmasked) closed-form predictor: `(f, n_z)`. -/
 def opFval : Handler := fun j => do
